@@ -43,7 +43,7 @@ def shards(tier):
 
 
 def required_counters(tier):
-    return {"triples.numpy": 1000, "triples.jax": 800, "triples.jaxtrace": 800, "triples.tf": 300, "triples.duck": 500, "user.categories": 200, "kinds.key": 30, "kinds.other": 100, "reverse_order_shards": 3, "context_triples.block": 200, "context_triples.built-while-disabled": 300, "context_triples.call": 400, "context_triples.after-hostile": 500, "hostile_events": 5}
+    return {"triples.numpy": 1000, "triples.jax": 800, "triples.jaxtrace": 800, "triples.tf": 300, "triples.duck": 500, "user.categories": 200, "kinds.key": 30, "kinds.other": 100, "reverse_order_shards": 3, "context_triples.block": 200, "tf.reference_dtypes": 5, "context_triples.built-while-disabled": 300, "context_triples.call": 400, "context_triples.after-hostile": 500, "hostile_events": 5}
 
 
 def cat(name):
@@ -299,6 +299,22 @@ def shard_tf(rec):
         for cname in DT.ALL_CATEGORIES:
             judge(rec, "tf", dname, kind, cname, x, tf.Tensor, n)
     rec.info["tf_dtypes_instantiated"] = made
+    # TF1-style reference variables in graph mode: their dtype is e.g. float32_ref (a float32 as far as any
+    # category is concerned; `dtype.name` says 'float32_ref', `as_numpy_dtype` says float32)
+    try:
+        with tf.Graph().as_default():
+            for n in ("float32", "float16", "bfloat16", "int32", "int8", "uint8", "bool", "complex64", "float64", "int64"):
+                t = getattr(tf.dtypes, n)
+                v = tf.compat.v1.Variable(tf.zeros((2,), dtype=t), use_resource=False)
+                if not v.dtype.name.endswith("_ref"):
+                    continue
+                npd = np.dtype(t.as_numpy_dtype)
+                for x, how in ((v, "ref-variable"), (tf.identity(v) if False else v._ref() if hasattr(v, "_ref") else v, "ref-tensor")):
+                    for cname in DT.ALL_CATEGORIES:
+                        judge(rec, "tf", DT.canonical_name(npd), DT.kind_of(npd), cname, x, typing.Any, n + "_ref:" + how)
+                rec.count("tf.reference_dtypes")
+    except Exception as e:  # noqa
+        rec.info["tf_reference_variables_unavailable"] = f"{type(e).__name__}: {e}"[:200]
     rec.sample({"carrier": "tf", "dtype": "bfloat16", "category": "Float"})
 
 
@@ -440,11 +456,16 @@ def shard_user(rec, seed, tier):
     import jaxtyping
 
     rng = random.Random(f"{seed}/C03/user")
-    pool = ["float32", "float64", "float16", "int8", "int32", "uint8", "bfloat16", "complex64", "my_dtype", "float8_e4m3fn", "int4"]
-    pats = [r"float\d+", r"u?int(8|16)", r".*", r"float", r"^int32$", r"(b)?float16", r"complex.*", r"my_.*", r"x"]
+    pool = ["float32", "float64", "float16", "int8", "int32", "uint8", "bfloat16", "complex64", "my_dtype", "float8_e4m3fn", "int4", "datetime64", "timedelta64", "str_", "bytes_", "object_"]
+    NP_SPELLING = {"datetime64": "M8[ns]", "timedelta64": "m8[s]", "str_": "U3", "bytes_": "S3", "object_": "O"}
+    pats = [r"float\d+", r"u?int(8|16)", r".*", r"float", r"^int32$", r"(b)?float16", r"complex.*", r"my_.*", r"x", r"datetime64", r"(str|bytes)_", r"object_?"]
     n = 250 if tier == "quick" else 2500
     carriers = []
     for nm in pool:
+        if nm in NP_SPELLING:
+            # numpy's parametrised dtypes: the name a category is matched against is that of the scalar type
+            carriers.append((nm, "numpy", np.zeros((2,), dtype=NP_SPELLING[nm]), np.ndarray))
+            continue
         if nm != "my_dtype":
             carriers.append((nm, "numpy", np.zeros((2,), dtype=nm), np.ndarray))
         carriers.append((nm, "duck", real.Duck((2,), nm), real.Duck))
